@@ -61,6 +61,9 @@ class Sandbox:
             if n["k"] == "d":
                 os.mkdir(p)
                 os.chmod(p, n.get("mode", 0o755))
+            elif n["k"] == "f" and n.get("special") == "fifo":
+                os.mkfifo(p)
+                os.chmod(p, n.get("mode", 0o644))
             elif n["k"] == "f":
                 with open(p, "wb") as f:
                     f.write(self.to_real(n.get("data", b"")))
@@ -92,6 +95,9 @@ class Sandbox:
                 with open(real, "rb") as f:
                     data = f.read()
                 out.append((model, "f", self.to_model(data), stat.S_IMODE(st.st_mode), canon_mtime(st), b""))
+            elif stat.S_ISFIFO(st.st_mode):
+                # (never opened: that would block) the model's view of a named pipe is an empty regular file
+                out.append((model, "f", b"", stat.S_IMODE(st.st_mode), canon_mtime(st), b""))
             else:
                 out.append((model, "?", b"", 0, 0, b""))
 
@@ -528,6 +534,7 @@ def child_main(sb, world, plan, wfd, gate=None):
         env = {k: os.fsdecode(sb.to_real(v)) for k, v in world.get("env", {}).items()}
         os.environ.clear()
         os.environ.update(env)
+        time.tzset()            # the program is started with this environment: TZ counts from the first clock reading on
         if world["cmd"] == "put":
             os.environ["TRASH_PUT_FAKE_UID_FOR_TESTING"] = str(world.get("uid", 0))
             # a clock that moves on its own: one hour per mutating call issued so far, so that "DeletionDate is the time
